@@ -9,7 +9,7 @@ RULE = ("programs from the grammar-directed generator (fv/gen.py), one per deriv
 ASSUMPTIONS = ["leaf rule classes are an oracle parameter of the block-level theorems; their own match/tostr pairs are "
                "exercised here, not proved",
                "generator valid class = what fv/gen.py emits (validated against the pinned tree)"]
-TIE_MODULES = []
+TIE_MODULES = ["FparserModel.Block", "FparserModel.Reader", "FparserModel.Expr"]
 
 
 def _render(p, case):
@@ -43,6 +43,12 @@ def run_case(case):
                                 "what": "generated valid program rejected: %s | minimal: %r" % (str(o.exc)[:200], mini[:400]),
                                 "replay": {"case": case, "source": src, "minimal": mini}})
         return res
+    if case.get("cosim"):
+        fs, info = util.block_cosim(src, std=std, ignore_comments=not keep, case=case)
+        res["findings"] += fs
+        res["counts"]["block-cosim"] = 1
+        for g in info.get("ghost", []) or []:
+            res["counts"]["ghost:" + g] = res["counts"].get("ghost:" + g, 0) + 1
     s1 = str(o.tree)
     o2 = real.try_parse(s1, std=std, ignore_comments=not keep, free=True)
     if o2.kind != "tree":
@@ -71,7 +77,7 @@ def cases(tier, seed):
     out = []
     for i, s in enumerate(util.seeds(seed, n, 1)):
         std = "f2008" if i % 2 == 0 else "f2003"
-        out.append({"seed": s, "std": std, "keep": (i // 2) % 2 == 1, "size": 1.0 if i % 5 else 2.0})
+        out.append({"seed": s, "std": std, "keep": (i // 2) % 2 == 1, "size": 1.0 if i % 5 else 2.0, "cosim": i % 2 == 0})
     return out
 
 
